@@ -8,8 +8,8 @@ import (
 	"fmt"
 	"io"
 	"log"
-	"os"
 	mrand "math/rand"
+	"os"
 	"runtime"
 	"runtime/debug"
 	"sort"
